@@ -91,9 +91,12 @@ func csvErrClass(err error) string {
 // csvSubErrClass: class of one entry of ds.errors.  The reader's errors are recognised by their TYPE (however wrapped).  crem's
 // own two refusals are plain errors whose wording is nobody's contract; they are recognised by what they are ABOUT: the text
 // has no record at all (noRecords), the name is already in use (duplicateTable, only where the caller says so).
-func csvSubErrClass(err error, text string, nameTaken bool) string {
-	if c := csvErrClass(err); c != "other" {
-		return c
+func csvSubErrClass(errs []error, text string, nameTaken bool) string {
+	// one refusal may be recorded as several entries (the reader's error and a remark of the data set's): the reader's counts
+	for _, err := range errs {
+		if c := csvErrClass(err); c != "other" {
+			return c
+		}
 	}
 	ref, refErr := csvRefRead(text)
 	switch {
@@ -394,10 +397,7 @@ func csvEvaluate(text string, loader csvLoader, ths []string) *csvEval {
 	err := ds.Errors()
 	table, terr := ds.Table(name)
 	if err != nil {
-		class := "other" // also: more than one error for one text
-		if subs := csvErrorsOf(ds); len(subs) == 1 {
-			class = csvSubErrClass(subs[0], text, false)
-		}
+		class := csvSubErrClass(csvErrorsOf(ds), text, false)
 		e.result = "err:" + class
 		e.verdict = e.result
 		if terr == nil {
@@ -574,6 +574,7 @@ func csvHistCase(c *Ctx, steps []csvHistStep, stream string) {
 	var outs []string
 	var fails []csvFinding
 	verdicts := ""
+	failedLoads := 0
 	p, site := protectSite(func() {
 		ds := cremcsv.NewDataSet("verif")
 		for i, st := range steps {
@@ -585,10 +586,15 @@ func csvHistCase(c *Ctx, steps []csvHistStep, stream string) {
 			ds.ParseCsvTextIntoTableWithTextColumns(st.name, st.text, st.ths...)
 			errs := csvErrorsOf(ds)
 			added := "-"
-			if len(errs) == before+1 {
+			if len(errs) > before {
 				_, taken := prev[st.name]
-				added = csvSubErrClass(errs[len(errs)-1], st.text, taken)
-			} else if len(errs) != before {
+				added = csvSubErrClass(errs[before:], st.text, taken)
+				failedLoads++
+				if ref0, refErr0 := csvRefRead(st.text); taken && (refErr0 != nil || len(ref0) == 0) {
+					// the name is in use AND the text is not loadable: the load is refused, for whichever reason the loader meets first
+					added = "E*"
+				}
+			} else if len(errs) < before {
 				added = fmt.Sprintf("errors:%d->%d", before, len(errs))
 			}
 			tcanon := "none"
@@ -602,7 +608,8 @@ func csvHistCase(c *Ctx, steps []csvHistStep, stream string) {
 					tcanon = fmt.Sprintf("?%T", table)
 				}
 			}
-			outs = append(outs, fmt.Sprintf("e=%s n=%d t=%s", added, len(errs), tcanon))
+			// n = the number of loads refused so far (how many entries one refusal leaves in the error list is not the property's matter)
+			outs = append(outs, fmt.Sprintf("e=%s n=%d t=%s", added, failedLoads, tcanon))
 
 			// ---- direct judgement of this step
 			e := &csvEval{}
